@@ -382,7 +382,19 @@ def typed_term(ch, env, T, depth):
             return ('call', 'bool', typed_term(ch, env, ch.pick(PRIM), d))
         return typed_term(ch, env, 'B', 0)
     if T == 'N':
-        k = ch.int(0, 13)
+        k = ch.int(0, 15)
+        if k >= 14:
+            # an element of a variable-length numeric array at a computed index (own or alias fields in the index)
+            arr = ref_term(ch, env, 'AN', 0)
+            if arr is not None and not (arr[0] == 'index'):
+                idx = typed_term(ch, env, 'N', min(d, 1))
+                try:
+                    fixed = _is_fixed_array(env, arr)
+                except Exception:
+                    fixed = True
+                if not fixed:
+                    return ('index', arr, idx)
+            return typed_term(ch, env, 'N', 0)
         if k <= 2:
             return typed_term(ch, env, 'N', 0)
         if k == 3:
@@ -412,6 +424,23 @@ def typed_term(ch, env, T, depth):
     if k <= 3:
         return typed_term(ch, env, 'S', 0)
     return ('call', 'str', typed_term(ch, env, ch.pick(PRIM), d))
+
+
+def _is_fixed_array(env, arr):
+    """Is the array reference arr (a field chain without indices) declared with a fixed length?"""
+    steps = []
+    n = arr
+    while n[0] == 'field':
+        steps.append(n[2])
+        n = n[1]
+    steps.reverse()
+    sc = env.this if n == ('this',) else env.aliases[n[1]]
+    ft = None
+    for name in steps:
+        ft = sc['fields'].get(name) or sc['consts'][name][0]
+        if ft[0] == 'msg':
+            sc = ft[1]
+    return ft is None or ft[0] != 'arr' or ft[2] >= 0
 
 
 def uses_this(e):
